@@ -904,7 +904,6 @@ class GerchbergSaxton(Alg):
         self.residual = xp.sum(
             xp.absolute(xp.absolute(self.A * self.x) - self.y)
         )
-        self.iter += 1
 
     def _done(self):
         over_iter = self.iter >= self.max_iter
